@@ -598,6 +598,8 @@ class Evaluator:
         self.st = None
         self.mut_params = {}
         self.mut_exits = {}
+        self.closure_tries = []
+        self._cont_conds = {}
         self.pc = []              # path condition stack
         self._pc_marks = []
         self.loop_stack = []      # (loop_id, break_states, continue_states, label)
@@ -1031,11 +1033,12 @@ class Evaluator:
             self.block(body_nodes[0])
         self._pc_pop()
         self.loop_stack.pop()
-        ends = [self.st] + frame[2]
-        end_state = None
-        for s in ends:
+        end_state = self.st
+        for s in reversed(frame[2]):
             if s is not None:
-                end_state = s if end_state is None else merge_states(end_state, s, ("loopend", lid_loop))
+                c_s = self._cont_conds.get(id(s))
+                # taken `continue`s first (their own conditions), the fall-through of the body otherwise
+                end_state = s if end_state is None else merge_states(s, end_state, c_s if c_s is not None else ("loopend", lid_loop))
         updates = {}
         for lid, name in carried.items():
             updates[name] = (init[lid], end_state.env.get(lid, ("loopvar", lid_loop, name)) if end_state is not None else ("loopvar", lid_loop, name))
@@ -1106,7 +1109,16 @@ class Evaluator:
         self.st.env = env
         self.closure_stack.append(cid)
         self._pc_push(("closure", cid))
+        self.closure_tries.append([])
         v = self.expr(node["body"])
+        tries = self.closure_tries.pop()
+        # a `?` inside the closure makes the closure return None / Err(e) at that point
+        import norm as _norm
+        for tv, is_res in reversed(tries):
+            if is_res:
+                v = ("ite", ("matches", tv, _norm.OK_DESC), v, ("ctor", "std::prelude::v1::Err", (("proj", tv, "std::prelude::v1::Err", 0),)))
+            else:
+                v = ("ite", ("matches", tv, _norm.SOME_DESC), v, ("ctor", "std::prelude::v1::None", ()))
         self._pc_pop()
         self.closure_stack.pop()
         if self.st is not None:
@@ -1162,6 +1174,26 @@ class Evaluator:
             return NEVER
         site = self._site(node=n, kind=kind, callee=callee, inst=inst, name=name, args=list(args), argnodes=argnodes,
                           ty=n.get("ty"))
+        # std::mem::replace / take / swap move values between places
+        if isinstance(callee, str) and "mem::" in callee and callee.rsplit("::", 1)[-1] in ("replace", "take", "swap") and argnodes and argnodes[0] is not None:
+            l = callee.rsplit("::", 1)[-1]
+            r0 = self.root_local(argnodes[0])
+            if r0 and r0[0] in self.st.env and not r0[2]:
+                old = args[0]
+                if l == "replace" and len(args) == 2:
+                    self.st.env[r0[0]] = args[1]
+                    site.term = old
+                    return old
+                if l == "take" and len(args) == 1:
+                    self.st.env[r0[0]] = ("call", "std::default::Default::default", ())
+                    site.term = old
+                    return old
+                if l == "swap" and len(args) == 2 and argnodes[1] is not None:
+                    r1 = self.root_local(argnodes[1])
+                    if r1 and r1[0] in self.st.env and not r1[2]:
+                        self.st.env[r0[0]], self.st.env[r1[0]] = args[1], args[0]
+                        site.term = UNIT
+                        return UNIT
         # `&mut x` arguments and `&mut self` receivers may be mutated by the callee
         term = None
         inlined_cs, inlined_mapping = None, None
@@ -1576,6 +1608,15 @@ class Evaluator:
         self._site(node=n, kind="continue", name="continue", args=[], argnodes=[], term=("loop", frame[0] if frame else None))
         if frame is not None:
             frame[2].append(self.st)
+            # the condition under which this `continue` is taken, relative to the start of the loop body
+            since = []
+            seen = False
+            for c in self.pc:
+                if c[0] == "loop" and c[1] == frame[0]:
+                    seen, since = True, []
+                elif seen:
+                    since.append(c)
+            self._cont_conds[id(self.st)] = pc_term(since)
         self.st = None
         return NEVER
 
@@ -1618,6 +1659,8 @@ class Evaluator:
         ty = str(n["e"].get("ty", ""))
         is_res = "Result<" in ty
         self._site(node=n, kind="try", name="?", args=[v], argnodes=[n["e"]], ty=ty)
+        if self.closure_stack and self.closure_tries:
+            self.closure_tries[-1].append((v, is_res))
         if not self.closure_stack:
             self.summ.returns.append((v, tuple(self.pc), self.st.may, self.st.must, n, "try"))
             import norm as _norm
